@@ -4,6 +4,7 @@ CONSTANTS
   Part = "value"
   L = 3
   Cut = 6
+  Stride = 2
 INVARIANT LawOutDomain
 INVARIANT LawSame
 INVARIANT LawPreserving
